@@ -551,20 +551,28 @@ func runOpenExisting(it *CrashItem, ks *sut.KeySet, workRoot string) (res OpenRe
 	rootEnd := (scan.Recs[0].Off + scan.Recs[0].HB + scan.Recs[0].DB) * 512
 	// tape variants
 	type tapeVar struct {
-		name string
-		cut  int64 // -1 = intact
+		name  string
+		cut   int64  // -1 = intact
+		extra []byte // bytes behind the (cut) tape
 	}
-	tapes := []tapeVar{{"intact", -1}}
+	tapes := []tapeVar{{"intact", -1, nil}}
 	lastRec := scan.Recs[len(scan.Recs)-1]
-	tapes = append(tapes, tapeVar{"torn-last-header", lastRec.Off*512 + 700})
-	tapes = append(tapes, tapeVar{"torn-trailer-aligned", scan.Bytes - 512})
-	tapes = append(tapes, tapeVar{"torn-trailer-unaligned", scan.Bytes - 300})
+	tapes = append(tapes, tapeVar{"torn-last-header", lastRec.Off*512 + 700, nil})
+	tapes = append(tapes, tapeVar{"torn-trailer-aligned", scan.Bytes - 512, nil})
+	tapes = append(tapes, tapeVar{"torn-trailer-unaligned", scan.Bytes - 300, nil})
+	// every record complete, only the end-of-archive marker of the last archive is missing (crash before the trailer)
+	tapes = append(tapes, tapeVar{"notrailer", (lastRec.Off + lastRec.HB + lastRec.DB) * 512, nil})
+	// a complete tape followed by less than a block: the first bytes of a record whose writer crashed, or stray zeros
+	if data, err := os.ReadFile(inst.Drive); err == nil && int64(len(data)) >= lastRec.Off*512+300 {
+		tapes = append(tapes, tapeVar{"fragment", -1, append([]byte{}, data[lastRec.Off*512:lastRec.Off*512+300]...)})
+		tapes = append(tapes, tapeVar{"zerofragment", -1, make([]byte, 211)})
+	}
 	for i := len(scan.Recs) - 1; i >= 0; i-- {
 		r := scan.Recs[i]
 		if r.Size > 0 {
-			tapes = append(tapes, tapeVar{"torn-data", (r.Off+r.HB)*512 + r.Size/2})
+			tapes = append(tapes, tapeVar{"torn-data", (r.Off+r.HB)*512 + r.Size/2, nil})
 			if r.Size > 1024 {
-				tapes = append(tapes, tapeVar{"torn-data-aligned", (r.Off+r.HB)*512 + 512})
+				tapes = append(tapes, tapeVar{"torn-data-aligned", (r.Off+r.HB)*512 + 512, nil})
 			}
 			break
 		}
@@ -579,7 +587,7 @@ func runOpenExisting(it *CrashItem, ks *sut.KeySet, workRoot string) (res OpenRe
 	}
 	for _, tv := range tapes {
 		for _, iv := range idxs {
-			if tv.cut >= 0 && iv.name == "current" {
+			if tv.cut >= 0 && iv.name == "current" && tv.name != "notrailer" {
 				// an index that is ahead of the tape is not among the quantified states
 				continue
 			}
@@ -589,6 +597,13 @@ func runOpenExisting(it *CrashItem, ks *sut.KeySet, workRoot string) (res OpenRe
 				err = copyFile(inst.Drive, drive)
 			} else {
 				err = copyPrefix(inst.Drive, drive, tv.cut)
+			}
+			if err == nil && len(tv.extra) > 0 {
+				var fh *os.File
+				if fh, err = os.OpenFile(drive, os.O_APPEND|os.O_WRONLY, 0o644); err == nil {
+					_, err = fh.Write(tv.extra)
+					_ = fh.Close()
+				}
 			}
 			if err != nil {
 				res.Infra = err.Error()
@@ -699,7 +714,37 @@ func runOpenExisting(it *CrashItem, ks *sut.KeySet, workRoot string) (res OpenRe
 							break
 						}
 					}
+					// append to a regular file that was on the tape before opening, read it back
+					var appendTo string
+					var appWant, appGot []byte
+					var e4 error
+					if len(res.Findings) == findingsBefore {
+						for _, p := range v.SortedPaths() {
+							e := v[p]
+							if e.Kind == "file" && e.RdErr == "" && (renamed == "" || (p != renamed && !strings.HasPrefix(p, renamed+"/"))) {
+								appendTo = p
+								appWant = append(append([]byte{}, e.Data...), w.Chunk("c1")...)
+								break
+							}
+						}
+					}
 					ok, pan := sut.Watchdog(callTimeout, func() {
+						if appendTo != "" {
+							fa, err := oi.FS.OpenFile(appendTo, os.O_APPEND|os.O_WRONLY, 0)
+							if err != nil {
+								e4 = err
+							} else {
+								if _, err := fa.Write(w.Chunk("c1")); err != nil {
+									e4 = err
+								}
+								if err := fa.Close(); err != nil && e4 == nil {
+									e4 = err
+								}
+								if e4 == nil {
+									appGot, e4 = sut.ReadAll(oi.FS, appendTo)
+								}
+							}
+						}
 						if renamed != "" {
 							e3 = oi.FS.Rename(renamed, renamedTo)
 						}
@@ -730,9 +775,15 @@ func runOpenExisting(it *CrashItem, ks *sut.KeySet, workRoot string) (res OpenRe
 						res.Dump = goroutineDump()
 						return
 					}
-					if pan != nil || e1 != nil || e2 != nil || e3 != nil {
-						add(call, "%s: writing after opening failed: %v %v %v %v", desc, pan, e1, e2, e3)
+					if pan != nil || e1 != nil || e2 != nil || e3 != nil || e4 != nil {
+						add(call, "%s: writing after opening failed: %v %v %v %v %v", desc, pan, e1, e2, e3, e4)
 					} else {
+						if appendTo != "" {
+							if !sameBytes(appGot, appWant) {
+								add(call, "%s: appending to %s after opening reads back %s instead of %s", desc, appendTo, describe(appGot), describe(appWant))
+							}
+							delete(v, appendTo) // compared by content below; its size and mtime changed
+						}
 						if renamed != "" {
 							// the view expected from now on: everything below `renamed` lives below `renamedTo`
 							moved := sut.View{}
@@ -758,7 +809,7 @@ func runOpenExisting(it *CrashItem, ks *sut.KeySet, workRoot string) (res OpenRe
 									}
 								}
 								for p := range nv {
-									if _, ok := v[p]; !ok && !strings.HasPrefix(p, "/zz-dir") {
+									if _, ok := v[p]; !ok && !strings.HasPrefix(p, "/zz-dir") && p != appendTo {
 										add(call, "%s: after renaming %s to %s unexpected entry %s", desc, renamed, renamedTo, p)
 									}
 								}
@@ -776,6 +827,13 @@ func runOpenExisting(it *CrashItem, ks *sut.KeySet, workRoot string) (res OpenRe
 								add(call, "%s: a file written after opening does not survive a rebuild (index error: %s)", desc, cv2.indexErr)
 							} else if !sameBytes(e.Data, payload) {
 								add(call, "%s: a file written after opening has %s after a rebuild (read error %q)", desc, describe(e.Data), e.RdErr)
+							}
+							if appendTo != "" {
+								if e, ok := cv2.view[appendTo]; !ok {
+									add(call, "%s: %s, appended to after opening, is gone after writing + rebuild", desc, appendTo)
+								} else if !sameBytes(e.Data, appWant) {
+									add(call, "%s: %s, appended to after opening, has %s after writing + rebuild instead of %s (read error %q)", desc, appendTo, describe(e.Data), describe(appWant), e.RdErr)
+								}
 							}
 							for p, old := range v {
 								n, ok := cv2.view[p]
